@@ -957,11 +957,6 @@ Qed.
 
 Lemma mk_cat_rev : forall l, mk_cat (rev l) = chain l.
 Proof.
-  intros l. destruct (exists_last (l := l)) as [H|]; [| |].
-Abort.
-
-Lemma mk_cat_rev : forall l, mk_cat (rev l) = chain l.
-Proof.
   intros l. induction l as [|last init _] using rev_ind; [reflexivity|].
   rewrite rev_app_distr. cbn [rev app mk_cat].
   rewrite fold_left_cat_rev. symmetry. apply chain_snoc.
@@ -1073,7 +1068,7 @@ Proof.
       apply IH; [assumption | cbn [length] in Hlen; lia].
     + destruct (utf8_decode_one (b :: t)) as [[r w]|] eqn:Hd.
       * destruct (decode_high b t r w ltac:(lia) Hd) as [Hr _].
-        cbn [is_prefix]. destruct (x =? r) eqn:E1; destruct (x =? b) eqn:E2; try lia. reflexivity.
+        cbn [is_prefix]. destruct (x =? r) eqn:E1; destruct (x =? b) eqn:E2; try lia; reflexivity.
       * apply decode_none in Hd. discriminate.
 Qed.
 
@@ -1109,6 +1104,12 @@ Proof.
   destruct (b <? 128) eqn:E; [reflexivity | lia].
 Qed.
 
+Lemma wfb_chain_chr : forall p, wfb (chain (map Chr p)) = true.
+Proof.
+  induction p as [|c [|d q] IH]; try reflexivity.
+  change (wfb (Cat (Chr c) (chain (map Chr (d :: q)))) = true). cbn [wfb]. exact IH.
+Qed.
+
 (* a pattern made only of ASCII letters and digits matches exactly the subjects that contain it *)
 Theorem regex_literal : forall p s,
   forallb is_alnum p = true ->
@@ -1119,6 +1120,7 @@ Proof.
   destruct (1000 <? N.of_nat (length p)) eqn:E1; [lia|].
   rewrite (parse_pattern_alnum p Hal).
   destruct (3000000 <=? 1 * (8 * N.of_nat (length p) + 16)) eqn:E2; [lia|].
+  rewrite wfb_chain_chr. cbn [negb].
   f_equal. rewrite search_initial, search_fresh_literal.
   unfold code_points. apply occurs_code_points; [now apply alnum_ascii | lia].
 Qed.
